@@ -12,8 +12,20 @@ import (
 )
 
 type UnitOpts struct {
-	LockMode   bool // generate lock discipline obligations
-	Sequential bool // Lock does not forget state (this call's own effects)
+	LockMode   bool      // generate lock discipline obligations
+	Sequential bool      // Lock does not forget state (this call's own effects)
+	Inst       *Instance // finite parameter instantiation (proof by instantiation)
+}
+
+// Instance fixes some parameters/globals of a unit to concrete shapes (slice headers with
+// concrete reference, offset and length; contents stay symbolic) and runs it on a single path.
+type Instance struct {
+	Label   string
+	Params  map[string]*Term // parameter name -> value
+	Globals map[string]*Term // package-level variable -> value
+	Objlen  map[int64]int64  // backing array lengths of the concrete references
+	BS      int              // block size of the (uninterpreted) block cipher
+	Fields  map[string]*Term // "F:Type.field" -> value of that field of the receiver object
 }
 
 func (x *Exec) paramVal(st *State, fr *Frame, i int, p *ssa.Parameter) Val {
@@ -63,7 +75,25 @@ func verifyUnit(env *Env, key string, fn *ssa.Function, opts UnitOpts) (u *Unit)
 	x.topFrame = fr
 	x.assume(st, mkLe(mkInt(0), x.alloc(st)))
 	st.setH("ghost:cb_n", mkInt(0))
+	if opts.Inst != nil {
+		x.concrete = true
+		x.inst = opts.Inst
+		u.Key = key + "@" + opts.Inst.Label
+		for ref, n := range opts.Inst.Objlen {
+			x.assume(st, mkEq(objlen(mkInt(ref)), mkInt(n)))
+		}
+		x.assume(st, mkLe(mkInt(2000), x.alloc(st)))
+		for g, v := range opts.Inst.Globals {
+			st.setH("G:"+env.spkg.Pkg.Name()+"."+g, v)
+		}
+	}
 	for i, p := range fn.Params {
+		if opts.Inst != nil {
+			if v, ok := opts.Inst.Params[p.Name()]; ok {
+				fr.params = append(fr.params, v)
+				continue
+			}
+		}
 		fr.params = append(fr.params, x.paramVal(st, fr, i, p))
 	}
 	for _, fv := range fn.FreeVars {
@@ -81,6 +111,20 @@ func verifyUnit(env *Env, key string, fn *ssa.Function, opts UnitOpts) (u *Unit)
 		// captured variable: its content is a pointer/slice/value of type pt
 		st.cells[c] = x.freshOf(st, "fv."+fv.Name(), pt)
 		fr.freeVars = append(fr.freeVars, &PtrVal{Nilc: tFalse, Base: PLocal, Cell: c, BTyp: pt, Typ: pt})
+	}
+	if opts.Inst != nil && len(opts.Inst.Fields) > 0 && len(fr.params) > 0 {
+		if p, ok := fr.params[0].(*PtrVal); ok && p.Base == PObj {
+			var names []string
+			for n := range opts.Inst.Fields {
+				names = append(names, n)
+			}
+			sort.Strings(names)
+			for _, n := range names {
+				v := opts.Inst.Fields[n]
+				h := st.H(n, arraySort(sortInt, v.Sort))
+				st.setH(n, mkStore(h, p.Ref, v))
+			}
+		}
 	}
 	// implicit: receiver non-nil
 	if fn.Signature.Recv() != nil && len(fr.params) > 0 {
